@@ -35,6 +35,7 @@
 //! # }
 //! ```
 
+use crate::node::SharedNode;
 use crate::constants::MAX_BLACKBOARD_KEY_SIZE;
 use crate::identifiers::UniqueReaderId;
 use crate::port::port_name::PortName;
@@ -109,6 +110,9 @@ struct ReaderSharedState<
     // Otherwise the process might crash during cleanup, has already removed the tag but other resources
     // are still existing. This would make a cleanup from another process impossible.
     port_tag: Service::StaticStorage,
+    // Keeps the node alive until the port tag is removed. If the port is the last owner of the
+    // node, the node could otherwise not remove its directory since it still contains the tag.
+    _shared_node: SharedNode<Service>,
 }
 
 unsafe impl<
@@ -127,6 +131,7 @@ impl<
         let this = unsafe { this.as_mut() };
         unsafe { SharedServiceState::abandon_in_place(NonNull::from_mut(&mut this.service_state)) };
         unsafe { Service::StaticStorage::abandon_in_place(NonNull::from_mut(&mut this.port_tag)) };
+        unsafe { SharedNode::abandon_in_place(NonNull::from_mut(&mut this._shared_node)) };
     }
 }
 
@@ -220,10 +225,12 @@ impl<
                         "{msg} since the port tag, that is required for cleanup, could not be created. [{e:?}]");
             }
         };
+        let shared_node = service.shared_node().clone();
 
         let shared_state =
             <Service as service::Service>::ArcThreadSafetyPolicy::new(ReaderSharedState {
                 port_tag,
+                _shared_node: shared_node,
                 service_state: service.clone(),
                 _key: PhantomData,
             });
